@@ -208,6 +208,8 @@ class Exec(object):
             c = tm.ne(c, tm.mk_int(0) if c.sort == INT else tm.mk_real(0))
         if c.is_const():
             return c.value()
+        if getattr(self, 'in_quant', 0):
+            raise Unsupported('case split on a symbolic condition under a spec quantifier (would be unsound)')
         k = len(self.taken)
         if k < len(self.prefix):
             d = self.prefix[k]
